@@ -172,6 +172,9 @@ func (j *jsonBuilder) flattenObject(value *astjson.Value, path ast.Path) ([]*ast
 			return nil, err
 		}
 		result = append(result, values...)
+	case astjson.TypeNull:
+		// A null parent (e.g. a nullable field resolver that returned no value) has nothing to merge into.
+		// The compiler skips it as well when building the resolver context, so the remaining values still line up.
 	default:
 		return nil, fmt.Errorf("expected array or object, got %s", current.Type())
 	}
